@@ -586,14 +586,29 @@ def r9_cascade_exemptions(ctx: Context) -> None:
     tg = ctx.repo.mod(TASKS).cls("TaskGraph")
     fn = method(tg, "cancel")
     head = fn.args.args[1].arg
-    loops = [n for n in fn.body if isinstance(n, ast.For) and isinstance(n.iter, ast.Call)
-             and call_name(n.iter) in ("depth_first", "breadth_first") and isinstance(n.target, ast.Name)]
-    ctx.floor("C06.R9", "descendant traversal in TaskGraph.cancel", len(loops), 1)
-    lp = loops[0]
-    lv = lp.target.id
-    ok_iter = len(lp.iter.args) == 1 and isinstance(lp.iter.args[0], ast.Name) and lp.iter.args[0].id == head
+    # the traversal: a flat `for x in self.depth_first(task)` or a worklist `while frontier: x = frontier.pop()`
+    flat = [n for n in fn.body if isinstance(n, ast.For) and isinstance(n.iter, ast.Call)
+            and call_name(n.iter) in ("depth_first", "breadth_first") and isinstance(n.target, ast.Name)]
+    work = []
+    for n in fn.body:
+        if isinstance(n, ast.While) and n.body and isinstance(n.body[0], ast.Assign) and isinstance(n.body[0].targets[0], ast.Name) \
+                and isinstance(n.body[0].value, ast.Call) and call_name(n.body[0].value) in ("pop", "popleft") \
+                and isinstance(n.body[0].value.func.value, ast.Name):
+            work.append(n)
+    ctx.floor("C06.R9", "descendant traversal in TaskGraph.cancel", len(flat) + len(work), 1)
+    if flat:
+        lp = flat[0]
+        lv = lp.target.id
+        ok_iter = len(lp.iter.args) == 1 and isinstance(lp.iter.args[0], ast.Name) and lp.iter.args[0].id == head
+        frontier = None
+    else:
+        lp = work[0]
+        lv = lp.body[0].targets[0].id
+        frontier = lp.body[0].value.func.value.id
+        inits = [a for a in fn.body if isinstance(a, ast.Assign) and isinstance(a.targets[0], ast.Name) and a.targets[0].id == frontier]
+        ok_iter = len(inits) == 1 and isinstance(inits[0].value, (ast.List, ast.Call)) and norm(inits[0].value) in (f"[{head}]", f"deque([{head}])")
     ctx.check(ok_iter, "C06.R9", "TaskGraph.cancel|traversal starts at the cancelled task", loc(lp), "ok",
-              f"the cascade walks `{norm(lp.iter)}`, not the descendants of `{head}`")
+              f"the cascade does not start from `{head}`")
     cancel_stmt = next((x for x in lp.body if isinstance(x, ast.Expr) and isinstance(x.value, ast.Call)
                         and call_name(x.value) == "cancel" and isinstance(x.value.func.value, ast.Name) and x.value.func.value.id == lv), None)
     if cancel_stmt is None:
@@ -636,6 +651,29 @@ def r9_cascade_exemptions(ctx: Context) -> None:
             ctx.check(any(isinstance(y, ast.Break) for y in ex.body) or any(isinstance(y, ast.Continue) for y in ex.body),
                       "C06.R9", "TaskGraph.cancel|exemption leaves the iteration", loc(ex), "break/continue", "falls through to cancel")
     ctx.floor("C06.R9", "conditional-join exemption", n_term, 1)
+    # R11: sparing one descendant neither ends the cascade for the others nor lets it run through the spared task
+    ctx.rule("C06.R11", "the cascade is a pruned worklist: an exemption skips the visited task only (`continue`, never `break`/"
+                        "`return`), and a task's children are enqueued only after that task was cancelled by this cascade")
+    for ex in exemptions:
+        leaves = [y for y in ast.walk(ex) if isinstance(y, (ast.Break, ast.Return))]
+        ctx.check(not leaves, "C06.R11", f"TaskGraph.cancel|exemption `{norm(ex.test)[:50]}` skips one task only", loc(leaves[0]) if leaves else loc(ex),
+                  "continue", "sparing one descendant ends the whole traversal: descendants of the cancelled task that were still waiting "
+                  "in the traversal (siblings of the spared join, the other branch of a fork) are never cancelled although they can no "
+                  "longer receive their inputs")
+    if frontier is None:
+        ctx.violation("C06.R11", "TaskGraph.cancel|children enqueued only below cancelled tasks", loc(lp),
+                      "the cascade iterates a flat list of ALL descendants: it either has to stop at the first spared task (losing the "
+                      "rest) or runs through spared joins and cancels tasks below a join that is still alive")
+    else:
+        pushes = [c for c in ast.walk(lp) if isinstance(c, ast.Call) and isinstance(c.func, ast.Attribute) and c.func.attr in ("extend", "append", "extendleft", "appendleft")
+                  and isinstance(c.func.value, ast.Name) and c.func.value.id == frontier]
+        g9 = cfgmod.build(fn)
+        cn = g9.node_of(cancel_stmt)
+        okp = bool(pushes) and all(g9.dominates(cn, g9.node_of(pc)) and f"get_children({lv})" in norm(pc) for pc in pushes)
+        ctx.check(okp, "C06.R11", "TaskGraph.cancel|children enqueued only below cancelled tasks", loc(pushes[0]) if pushes else loc(lp),
+                  f"{frontier}.extend(get_children({lv})) after {lv}.cancel()",
+                  "the children of a visited task are enqueued although the task itself was spared (or nothing is enqueued): the cascade "
+                  "runs through a live join, or never reaches the descendants")
     # the remaining exemptions may only spare descendants that are already out of play: evaluated for every TaskState member,
     # an exemption that holds for a VIRTUAL / RELEASED / SCHEDULED descendant keeps a task alive that lost its inputs
     interp, _c, _w = task_interp(ctx.repo)
